@@ -2030,3 +2030,59 @@ def grd11_reopen_offset(P, R, L, rule="GRD-11"):
         R.check(rule, "logs|writer-reader-trailer-agreement", bool(common_), where(w),
                 "writer and reader decide 'no room for a header in this block' with the same relation and constants",
                 "writer %s reader %s" % (sorted(tw), sorted(tr)))
+
+
+# ------------------------------------------------------------------------------------------- ROLE-4 persisted counters round trip
+def role4_counters(P, R, L, rule="ROLE-4"):
+    """The four counters recovery depends on are written into every version edit from the version set's own state and
+    restored from the manifest into the same fields: next file number, last sequence, current WAL, previous WAL."""
+    VS = "versioning::version_set::VersionSet"
+    VCM = "versioning::version_manifest::VersionChangeManifest"
+    w = P.body(VS + "::get_new_version_from_current")
+    if w is None:
+        R.missing_anchor(rule, VS + "::get_new_version_from_current")
+    else:
+        R.analysed(w)
+        for dst, src in (("curr_file_number", "curr_file_number"), ("prev_sequence_number", "prev_sequence_number"),
+                         ("wal_file_number", "curr_wal_number"), ("prev_wal_file_number", "prev_wal_number")):
+            st = field_stores(w, dst, adt=VCM)
+            good = [s for s in st if any(src in o.path for o in origins(w, s[2]["rv"]["ops"][0]) ) or
+                    any(src in o.path for x in s[2]["rv"].get("ops", []) for o in origins(w, x))] if st else []
+            required_always = dst in ("curr_file_number", "prev_sequence_number")
+            ok = bool(good)
+            if ok and required_always:
+                ok = all(w.must_pass(x, through_nodes=[s[0] for s in good]) for x in _ok_blocks(w))
+            R.check(rule, "%s|edit.%s<-version_set.%s" % (w.path, dst, src), ok, where(w),
+                    "every version edit records %s from the version set's %s%s" % (dst, src, "" if required_always else " when the caller left it unset"),
+                    "stores %d, from the right field %d" % (len(st), len(good)))
+    r = P.body(VS + "::recover")
+    if r is None:
+        R.missing_anchor(rule, VS + "::recover")
+    else:
+        R.analysed(r)
+        oks = _ok_blocks(r)
+        for dst in ("curr_file_number", "prev_sequence_number", "curr_wal_number", "prev_wal_number", "manifest_file_number"):
+            st = field_stores(r, dst, adt=VS)
+            ok = bool(st) and all(r.must_pass(x, through_nodes=[s[0] for s in st]) for x in oks)
+            R.check(rule, "%s|restores.%s" % (r.path, dst), ok, where(r),
+                    "a successful recovery restores VersionSet::%s from the manifest" % dst, "stores %d" % len(st))
+        # the restored values come from the edits read from the manifest: the accumulator locals are assigned from
+        # the corresponding VersionChangeManifest fields inside the read loop
+        for fld in ("wal_file_number", "prev_wal_file_number", "curr_file_number", "prev_sequence_number"):
+            rd = sorted(field_reads(r, fld))
+            ok = bool(rd) and any(in_cycle(r, x) for x in rd)
+            R.check(rule, "%s|reads-edit.%s" % (r.path, fld), ok, where(r),
+                    "recovery folds VersionChangeManifest::%s of every manifest record" % fld, "read in blocks %s" % rd[:6])
+    # the codec writes / reads each of the four scalars
+    for p, b in P.bodies.items():
+        if "VersionChangeManifest" in p and p.endswith("::from") and "Vec<u8>" in p:
+            R.analysed(b)
+            for fld in ("wal_file_number", "prev_wal_file_number", "curr_file_number", "prev_sequence_number"):
+                wr = [c for c in b.calls() if (c.declared_name or "").endswith("write_varint") and not b.is_cleanup(c.bb)
+                      and any(fld in o.path for o in origins(b, c.args[1]))]
+                R.check(rule, "manifest-codec|writes.%s" % fld, bool(wr), where(b), "the serialiser writes %s" % fld, "sites %d" % len(wr))
+        if p.startswith("<versioning::version_manifest::VersionChangeManifest as std::convert::TryFrom<") and p.endswith("::try_from"):
+            R.analysed(b)
+            for fld in ("wal_file_number", "prev_wal_file_number", "curr_file_number", "prev_sequence_number"):
+                st = field_stores(b, fld, adt=VCM)
+                R.check(rule, "manifest-codec|reads.%s" % fld, bool(st), where(b), "the deserialiser fills %s" % fld, "stores %d" % len(st))
